@@ -145,7 +145,8 @@ def gen_misuses(rng, n):
                            "unknown", "unknown", "qmark", "unsupported", "unsupported", "custom_no_target", "target_no_delegate"])
         nm = "g%03d_%s" % (i, kind)
         if kind in ("concrete_mod", "concrete_impl"):
-            bad = "%sfn bad(d: &\n/*@off*/ %s\n%s) {}" % ("pub " if kind == "concrete_mod" else "", rng.choice(concrete), rng.choice(["", ", a: u8"]))
+            gate = rng.choice(["", "", "", "#[cfg(all())] ", "#[cfg(any())] ", "#[cfg(feature = \"not_there\")] ", "#[inline] "])   # a gated fn is still a misuse
+            bad = "%s%sfn bad(d: &\n/*@off*/ %s\n%s) {}" % (gate, "pub " if kind == "concrete_mod" else "", rng.choice(concrete), rng.choice(["", ", a: u8"]))
             out.append((nm, container("mod" if kind == "concrete_mod" else "impl", bad),
                         r"concrete dependencies in a module" if kind == "concrete_mod" else r"concrete dependency in an impl block"))
         elif kind.startswith("missing"):
@@ -333,7 +334,21 @@ def run(tier, seed):
         pinned.append(c)
     kpins = [Case("c15known_" + name, src + "\n", meta={"family": "known-pin", "pin": name}, run=False, expect="expand")
              for name, src in KNOWN_PINS]
-    cases = cases + kpins
+    # keywords where the option grammar expects a name or a value (all targets)
+    kw_cases = []
+    KW = ["dyn", "fn", "match", "type", "Self", "self", "super", "crate", "ref", "mut", "r#dyn", "_", "true", "async", "impl"]
+    k = 0
+    for kw in KW:
+        for tmpl in ("#[::entrait::entrait(TImpl, delegate_by = %s)] /*@inv*/\ntrait T { fn f(&self); }",
+                     "#[::entrait::entrait(delegate_by = %s)] /*@inv*/\ntrait T { fn f(&self); }",
+                     "#[::entrait::entrait(Foo, mock_api = %s)] /*@inv*/\nfn f<D>(d: &D) {}",
+                     "#[::entrait::entrait(%s)] /*@inv*/\nfn f<D>(d: &D) {}",
+                     "#[::entrait::entrait(pub %s, no_deps)] /*@inv*/\nfn f() {}",
+                     "#[::entrait::entrait(%s, delegate_by = ref)] /*@inv*/\ntrait T { fn f(&self); }",
+                     "#[::entrait::entrait(Foo, unimock = %s)] /*@inv*/\nmod m { pub fn f<D>(d: &D) {} }"):
+            kw_cases.append(Case("c15kw_%03d" % k, (tmpl % kw) + "\n", meta={"family": "keyword-args"}, run=False, expect="expand"))
+            k += 1
+    cases = cases + kpins + kw_cases
     ws = core.Workspace(PROP, "x", expand_only=True)
     ws.extend(cases + pinned)
     ws.write()
